@@ -1865,6 +1865,13 @@ psRes_t tls13ParseCertificateAuthorities(ssl_t *ssl,
         }
     }
 
+    /* A repeated certificate_authorities extension replaces the earlier
+       list: do not leak it. */
+    psFree(keySelect->caNames, ssl->sPool);
+    psFree(keySelect->caNameLens, ssl->sPool);
+    keySelect->caNames = NULL;
+    keySelect->caNameLens = NULL;
+
     /* Allocate space for the issuer names and their lengths.  */
     keySelect->nCas = nCas;
     keySelect->caNames = psCalloc(pool, nCas, sizeof(keySelect->caNames[0]));
